@@ -294,6 +294,9 @@ def restrictions():
     ):
         add("ic_options:%s:no_zero_mean_with_std_one" % gname, lambda mk=mk: mk(False, True, False), ValueError, lambda mk=mk: (mk(True, True, False), mk(False, False, True), mk(True, False, False)))
         add("ic_options:%s:std_one_and_max_one" % gname, lambda mk=mk: mk(True, True, True))
+    for rng_ in ((-1.0, 1.0), (-0.5, 0.5), (0.0, 1.0), (-2.0, 0.0), (1e-3, 1e-3)):
+        add("ic_options:RandomTruncatedFourierSeries:offset_range_%s_with_std_one" % (rng_,), lambda rng_=rng_: I.RandomTruncatedFourierSeries(2, offset_range=rng_, std_one=True), ValueError, lambda rng_=rng_: I.RandomTruncatedFourierSeries(2, offset_range=rng_, max_one=True))
+        add("ic_options:RandomSineWaves1d:offset_range_%s_with_std_one" % (rng_,), lambda rng_=rng_: I.RandomSineWaves1d(1, offset_range=rng_, std_one=True), ValueError, lambda rng_=rng_: I.RandomSineWaves1d(1, offset_range=rng_, max_one=True))
     add("sine_waves_mismatched_lengths", lambda: I.SineWaves1d(1.0, (1.0, 2.0), (1,), (0.0,)))
     add("sine_waves_mismatched_phases", lambda: I.SineWaves1d(1.0, (1.0,), (1,), (0.0, 1.0)))
     add("gaussian_blob_wrong_coordinates", lambda: GaussianBlob(jnp.ones(2) * 0.5, jnp.eye(2) * 0.1)(ex.make_grid(3, 1.0, N0)), ValueError, lambda: GaussianBlob(jnp.ones(2) * 0.5, jnp.eye(2) * 0.1)(ex.make_grid(2, 1.0, N0)))
